@@ -351,32 +351,36 @@ def _same_mask(m1, m2):
 
 
 def _ew_masked(f, operands, dtype=None):
-    """elementwise operation on boolean-mask selections of ONE mask (numpy aligns the selected rows in order) and
-    scalars; trailing dimensions broadcast as usual.  The result is again a selection by that mask."""
+    """elementwise operation with boolean-mask selections a[m] among the operands: all selections must select the same
+    rows (same length n, masks equal at every row: side obligation `mask-match` unless it is the same mask term); other
+    operands broadcast against the trailing dims only.  The result is the selection (by the same mask) of the elementwise
+    result on the full arrays."""
     ms = [o for o in operands if isinstance(o, Masked)]
     m0 = ms[0]
     for m in ms[1:]:
-        if not _same_mask(m0, m):
-            raise EngineError("elementwise operation on selections by different masks")
+        require_dim_eq(m0.n, m.n, "mask-length")
+        t = sv.fresh_int("mm")
+        a, b = m0.mask(t), m.mask(t)
+        same = (a is b) or (isinstance(a, SV) and isinstance(b, SV) and a.t.eq(b.t)) or (is_conc(a) and is_conc(b) and a == b)
+        if not same:
+            cur().require(sv.implies(sv.and_(sv.cmp(">=", t, 0), sv.cmp("<", t, m0.n)), sv.cmp("==", a, b)), "mask-match")
     parts = []
     for o in operands:
         if isinstance(o, Masked):
             parts.append((tuple(o.rest), o.src, o.dtype, True))
         else:
             shp, rd, dt = as_operand(o)
-            if shp != ():
-                raise EngineError("elementwise operation of a masked selection with an array")
-            parts.append(((), rd, dt, False))
-    rest = broadcast_shapes([p[0] for p in parts])
+            parts.append((tuple(shp), rd, dt, False))
+    rest = broadcast_shapes([p[0] for p in parts]) if any(p[0] for p in parts) else ()
     nd = len(rest)
     maps = [_bidx(p[0], nd) for p in parts]
     dt = dtype or promote(*[p[2] for p in parts])
 
     def src(idx):
-        t, tail = idx[0], tuple(idx[1:])
+        t, r = idx[0], tuple(idx[1:])
         vals = []
         for (shp, rd, _, masked), mp in zip(parts, maps):
-            vals.append(rd((t,) + tuple(mp(tail))) if masked else rd(()))
+            vals.append(rd((t,) + mp(r)) if masked else rd(mp(r)))
         return f(*vals)
     return Masked(_memo(src), m0.n, m0.mask, tuple(rest), dt)
 
@@ -595,7 +599,7 @@ def _masked_getitem(a, key):
         # general indexing of a selection: materialise it as an array (relational contract of the row order, relops.py)
         from .relops import masked_to_arr
         return getitem(masked_to_arr(a), key if len(key) != 1 else key[0])
-    rest, plan, ax = [], [], 0
+    rest, plan, ax, fixed = [], [], 0, {}
     for k in key[1:]:
         if k is None:
             rest.append(1)
@@ -603,6 +607,9 @@ def _masked_getitem(a, key):
         elif isinstance(k, slice) and k == slice(None) and ax < len(a.rest):
             rest.append(a.rest[ax])
             plan.append(ax)
+            ax += 1
+        elif sv.is_scalar(norm(k)) and not isinstance(k, slice) and ax < len(a.rest):
+            fixed[ax] = _norm_index(k, a.rest[ax])       # a[m][:, k]: a trailing axis fixed at an index
             ax += 1
         else:
             raise EngineError("indexing a masked selection")
@@ -618,6 +625,8 @@ def _masked_getitem(a, key):
         for pos, ax_ in enumerate(plan):
             if ax_ is not None:
                 old[ax_] = tail[pos]
+        for k_, v_ in fixed.items():
+            old[k_] = v_
         return src((idx[0],) + tuple(old))
     return Masked(src2, a.n, a.mask, tuple(rest), a.dtype)
 
@@ -964,17 +973,38 @@ def _axis_len_sum(n, f):
     return Sum(0, n, f)
 
 
+def _masked_conv(v):
+    if isinstance(v, SV) and v.is_bool:
+        return sv.wrap(sv.znum(v))
+    if isinstance(v, bool):
+        return int(v)
+    return v
+
+
 def reduce_sum(a, axis=None):
     if isinstance(a, Masked):
-        src, mask = a.src, a.mask
-        if a.rest == ():
-            if axis not in (None, 0):
-                raise EngineError("masked sum axis")
-            return Sum(0, a.n, lambda t: ite(mask(t), lambda: src((t,)), 0))
-        if axis is None or int(axis) != 0:
-            raise EngineError("masked sum with trailing dims over another axis")
-        n = a.n
-        return new_arr(tuple(a.rest), lambda idx: Sum(0, n, lambda t: ite(mask(t), lambda: src((t,) + tuple(idx)), 0)), a.dtype)
+        src, mask, rest = a.src, a.mask, tuple(a.rest)
+        dt = "int" if a.dtype == "bool" else a.dtype
+        if axis is not None:
+            axis = int(axis) % (1 + len(rest))
+        if axis is None:
+            def total(t, prefix, k):
+                if k == len(rest):
+                    return _masked_conv(src((t,) + tuple(prefix)))
+                return Sum(0, rest[k], lambda u: total(t, prefix + [u], k + 1))
+            return Sum(0, a.n, lambda t: ite(mask(t), lambda: total(t, [], 0), 0))
+        if axis == 0:
+            def fn0(idx):
+                return Sum(0, a.n, lambda t: ite(mask(t), lambda: _masked_conv(src((t,) + tuple(idx))), 0))
+            return fn0(()) if rest == () else new_arr(rest, fn0, dt)
+        k = axis - 1
+        new_rest = rest[:k] + rest[k + 1:]
+        nk = rest[k]
+
+        def srck(idx):
+            t, r = idx[0], tuple(idx[1:])
+            return Sum(0, nk, lambda u: _masked_conv(src((t,) + r[:k] + (u,) + r[k:])))
+        return Masked(_memo(srck), a.n, mask, new_rest, dt)
     if not isinstance(a, Arr):
         a = from_nested(a)
     r = a.reader()
@@ -1039,7 +1069,16 @@ def count_elems(a):
 
 def reduce_mean(a, axis=None):
     if isinstance(a, Masked):
-        return sv.div(reduce_sum(a), a.count())
+        if axis is None:
+            cnt = a.count()
+            for dd in a.rest:
+                cnt = sv.mul(cnt, dd)
+            return sv.div(reduce_sum(a), cnt)
+        ax = int(axis) % (1 + len(a.rest))
+        s_ = reduce_sum(a, ax)
+        if ax == 0:
+            return binop("/", s_, a.count()) if isinstance(s_, Arr) else sv.div(s_, a.count())
+        return _ew_masked(lambda x, y: sv.div(x, y), [s_, a.rest[ax - 1]], dtype="float")
     if not isinstance(a, Arr):
         a = from_nested(a)
     s = reduce_sum(a, axis)
